@@ -15,15 +15,15 @@ from harness.progs import instantiate
 from harness.tlc import run_tlc, tla, SPEC_DIR, TLCResult
 from harness.tracer import Tracer
 
-EVENT_KEYS = ['act', 'arg', 'raised', 'ndec', 'steps', 'chA', 'chG', 'accA',
-              'accG', 'accKnown', 'hasInv', 'uniform']
+EVENT_KEYS = ['act', 'arg', 'raised', 'ndec', 'steps', 'F', 'I', 'chA', 'chG',
+              'accA', 'accG', 'accKnown', 'hasInv', 'uniform']
 
 
 def _cfg_key(c: dict[str, Any]) -> str:
     return json.dumps(c, sort_keys=True)
 
 
-def constants_for(c: dict[str, Any]) -> str:
+def constants_for(c: dict[str, Any], sched_args: list[int] = ()) -> str:
     tables: dict[str, list[int]] = {}
 
     def spec(v: Any, nm: str) -> Any:
@@ -41,18 +41,20 @@ def constants_for(c: dict[str, Any]) -> str:
             c['kinds']['factor_decay']],
         kl_clip={'const': 0.001, 'fn': 'kl_lin', 'none': None}[
             c['kinds']['kl_clip']],
-        lr={'const': 0.1, 'fn': 'lr_lin', 'none': None}[c['kinds']['lr']])
+        lr={'const': 0.1, 'fn': 'lr_lin', 'none': None}[c['kinds']['lr']],
+        sched=dict(c.get('sched') or {}))
     return refreplay.ref_constants(
         cfg, ['Train', 'Step', 'Eval', 'Reset', 'ResetMid', 'FwdOnly', 'Save',
-              'Load', 'Mem'], [1], [-1], 10 ** 6, False,
-        int_tables=tables or None)
+              'Load', 'Mem', 'Sched'], [1], sorted(set(sched_args) | {-1}),
+        10 ** 6, False, int_tables=tables or None)
 
 
 def check_group(c: dict[str, Any], traces: list[list[dict[str, Any]]],
                 props: bool = True, tag: str = '') -> TLCResult:
     inst = 'MC_KfacRefT' + tag
     name = 'MC_KfacTrace' + tag
-    mod = instantiate('KfacRef', inst, constants_for(c))
+    sargs = [e['arg'] for t in traces for e in t if e['act'] == 'sched']
+    mod = instantiate('KfacRef', inst, constants_for(c, sargs))
     evs = [[{k: e[k] for k in EVENT_KEYS} for e in t] for t in traces]
     src = open(os.path.join(SPEC_DIR, 'KfacTrace.tla')).read()
     src = src.replace('KFACREF_INSTANCE', inst).replace(
@@ -160,10 +162,25 @@ def random_driver(seed: int, n_ops: int = 40) -> list[dict[str, Any]]:
               kl_clip=rng.choice([0.001, None]),
               compute_method=rng.choice(['eigen', 'inverse']))
 
+    from kfac.scheduler import LambdaParamScheduler
+    use_sched = (not callable(F)) and (not callable(I)) and rng.random() < 0.5
+    skw: dict[str, Any] = {}
+    if use_sched:
+        # growing intervals (they must stay positive), shrinking damping
+        skw['factor_update_steps_lambda'] = kaisa.FUNCS[
+            rng.choice(['dbl_after1', 'dbl'])]
+        if rng.random() < 0.5:
+            skw['inv_update_steps_lambda'] = kaisa.FUNCS['dbl_after1']
+        if not callable(kw['damping']):
+            skw['damping_lambda'] = kaisa.FUNCS['half']
+    holder: dict[str, Any] = {}
+
     def make() -> tuple[Any, Any]:
         m = torch.nn.Sequential(torch.nn.Linear(4, 3), torch.nn.Tanh(),
                                 torch.nn.Linear(3, 2))
-        return m, KFACPreconditioner(m, **kw)
+        p = KFACPreconditioner(m, **kw)
+        holder['sched'] = LambdaParamScheduler(p, **skw) if use_sched else None
+        return m, p
 
     with Tracer() as tr:
         model, pre = make()
@@ -171,7 +188,8 @@ def random_driver(seed: int, n_ops: int = 40) -> list[dict[str, Any]]:
         saved = None
         for _ in range(n_ops):
             op = rng.choice(['train', 'train', 'train', 'step', 'step', 'eval',
-                             'fwdonly', 'reset', 'save', 'mem', 'resume'])
+                             'fwdonly', 'reset', 'save', 'mem', 'resume',
+                             'sched'])
             x = torch.randn(rng.randint(1, 5), 4)
             try:
                 if op == 'train':
@@ -203,6 +221,10 @@ def random_driver(seed: int, n_ops: int = 40) -> list[dict[str, Any]]:
                     saved = torch.load(buf, weights_only=False)
                 elif op == 'mem':
                     pre.memory_usage()
+                elif op == 'sched':
+                    if holder.get('sched') is None or pre.steps > 6:
+                        continue
+                    holder['sched'].step(rng.choice([None, None, 1, 2]))
                 elif op == 'resume' and saved is not None:
                     grads = [None if p.grad is None else p.grad.clone()
                              for p in model.parameters()]
